@@ -9,7 +9,7 @@ def runSweep (payload : String) : String × String × String :=
   match payload.splitOn " | " with
   | mode :: recv :: rest =>
     let calls := (" | ".intercalate rest).splitOn " ; "
-    let isStack := recv.startsWith "K" || recv == "zero-stack" || recv == "freed-stack"
+    let isStack := recv.startsWith "K" || recv.startsWith "zero-stack" || recv.startsWith "freed-stack"   -- (a suffix `+d`: package defaults set)
     let tbl := if isStack then stackMethods else condMethods
     let outs := calls.map (fun call =>
       let name := ((words call).headD "")
